@@ -48,6 +48,27 @@ let handle (toks : string list) : string =
       if ctx = "case" && res = "n" && (px = "A" || py = "A") then "ok"
       else if res = b01 spec then "ok nt"
       else Printf.sprintf "chk combined_%s_%s impl=%s spec=%s" form ctx res (b01 spec)
+  | ["I"; ctx; op; nh; pres; oh; opres; res] ->
+      (* IS [NOT] NULL on a column whose NAME is part of the input (keyword fragments, letter case):
+         the row {id, <name>, <other>} is handed to the model's named-column lookup *)
+      let str s = List.init (String.length s) (fun i -> n_of_int (Char.code s.[i])) in
+      let name = bytes_of_hex nh and other = bytes_of_hex oh in
+      let cell k = function
+        | "A" -> []
+        | "N" -> [(k, None)]
+        | "Pe" -> [(k, Some [])]
+        | "Ps" -> [(k, Some (str "hello"))]
+        | "Pz" -> [(k, Some (str "0"))]
+        | "Pf" -> [(k, Some (str "false"))]
+        | _ -> failwith "bad presence" in
+      let row = [(str "id", Some (str "0"))] @ cell other opres @ cell name pres in
+      let neg = (op = "isnotnull") in
+      let spec = if neg then col_is_not_null name row else col_is_null name row in
+      let model = sql_is_null_pred neg name row in
+      let ascii = String.concat "" (List.map (fun x -> String.make 1 (Char.chr (int_of_n x))) name) in
+      if model <> spec then "diff model_rewrite_vs_spec"
+      else if res = b01 spec then "ok nt"
+      else Printf.sprintf "chk named_%s_%s column=%s presence=%s impl=%s spec=%s" op ctx ascii pres res (b01 spec)
   | _ -> "bad line"
 
 let () = Registry.register "C13" handle
